@@ -5,5 +5,5 @@ CONSTANTS
   Menu <- FullMenu
   InitTrees <- Trees
   Mutant = "delete_no_node_locks"
-INVARIANTS Refines PrefixFreeAbs NoRace Exclusive
+INVARIANTS Refines PrefixFreeAbs NoRace Exclusive NoPhantom
 PROPERTIES Terminates
